@@ -1,4 +1,4 @@
-import McpModel.Conn.FlagInv
+import McpModel.Conn.DispInv
 /-!
 # Property theorems for E1 — the jsonrpc2 connection (C01–C05)
 
@@ -330,5 +330,68 @@ shutting-down state and therefore completes at once with the closed-connection e
 (see `refused_when_shutting_down`). -/
 theorem done_is_shutting_down (ls : List Label) (s : St) (h : run {} ls = some s) (hd : s.done = true) :
     s.shuttingDown = true := (done_implies_quiescent ls s h hd).2.2.2.2.2.1
+
+/-! ## C03 — in-order dispatch -/
+
+/-- **dispatch_fifo.** In every reachable state, handlers were entered in arrival order: if requests
+`i < j` (arrival numbers) have both been handed to the handler, `i`'s start stamp is smaller. The
+handler queue itself is in arrival order and holds only requests that arrived after every request
+already started. -/
+theorem dispatch_fifo (ls : List Label) (s : St) (h : run {} ls = some s) :
+    (∀ (i j : Nat) (mi mj : ReqMeta) (ti tj : Nat), i < j → s.metas[i]? = some mi → s.metas[j]? = some mj →
+      mi.started = some ti → mj.started = some tj → ti < tj) ∧
+    s.queue.Pairwise (· < ·) ∧
+    (∀ q ∈ s.queue, ∀ (j : Nat) (m : ReqMeta), s.metas[j]? = some m → m.started.isSome = true → j < q) := by
+  have i := (inv2_run ls inv2_init h).disp
+  refine ⟨?_, i.sorted, ?_⟩
+  · intro a b ma mb ta tb hab hma hmb hta htb
+    exact i.fifo a b ma.mcore mb.mcore ta tb hab (by simp [dview, hma]) (by simp [dview, hmb]) hta htb
+  · intro q hq j m hm hs
+    exact i.above q hq j m.mcore (by simp [dview, hm]) hs
+
+/-- **sync_finishes_before_next_starts.** Whenever the dispatcher is about to take the next request
+(it is parked at D1 — the only label that enters a handler), every handler started so far has either
+declared itself asynchronous (`Async`) or its request is completely finished, processResult
+included (response written or refused, `incoming` decremented). So the handler of a notification —
+and of any call that does not call `Async`, such as `initialize` — finishes before the handler of any
+later message starts. -/
+theorem sync_finishes_before_next_starts (ls : List Label) (s : St) (h : run {} ls = some s) (hd : s.disp = .d1) :
+    ∀ (i : Nat) (m : ReqMeta) (k : ReqCore), s.metas[i]? = some m → s.cores[i]? = some k →
+      m.started.isSome = true → m.asyncCalled = true ∨ k.pc = .fin := by
+  have iv := (inv2_run ls inv2_init h).disp
+  intro i m k hm hk hs
+  have hmm : (dview s).ms[i]? = some m.mcore := by simp [dview, hm]
+  have hrel : m.released = true := by
+    cases hr : m.released with
+    | true => rfl
+    | false =>
+      have := iv.unrel i m.mcore hmm hs hr
+      simp [dview, hd] at this
+  exact iv.rel i m.mcore k hmm hk hrel
+
+/-- **started_earlier_released.** A handler that was started earlier than another one had released the
+dispatcher (Async or completely finished) — in every reachable state, for every pair. -/
+theorem started_earlier_released (ls : List Label) (s : St) (h : run {} ls = some s) :
+    ∀ (i j : Nat) (mi mj : ReqMeta) (ki : ReqCore) (ti tj : Nat), s.metas[i]? = some mi → s.metas[j]? = some mj →
+      s.cores[i]? = some ki → mi.started = some ti → mj.started = some tj → ti < tj →
+      mi.asyncCalled = true ∨ ki.pc = .fin := by
+  have iv := (inv2_run ls inv2_init h).disp
+  intro i j mi mj ki ti tj hmi hmj hki hti htj hlt
+  have h1 : (dview s).ms[i]? = some mi.mcore := by simp [dview, hmi]
+  have h2 : (dview s).ms[j]? = some mj.mcore := by simp [dview, hmj]
+  have hrel := iv.prev i j mi.mcore mj.mcore ti tj h1 h2 hti htj hlt
+  exact iv.rel i mi.mcore ki h1 hki hrel
+
+/-- **single_dispatcher.** There is a dispatcher goroutine exactly while `handlerRunning` is set; when it
+runs processResult itself (request cancelled before dispatch) it is busy with exactly that request,
+and it waits for exactly the one started handler that has not released it. -/
+theorem single_dispatcher (ls : List Label) (s : St) (h : run {} ls = some s) :
+    s.handlerRunning = (s.disp != .none) ∧
+    (∀ (r : Nat) (k : ReqCore), s.cores[r]? = some k → k.owner = .dispatcher → k.pc.inPR = true → s.disp = .busy r) ∧
+    (∀ (r : Nat) (m : ReqMeta), s.metas[r]? = some m → m.started.isSome = true → m.released = false → s.disp = .waiting r) := by
+  have iv := (inv2_run ls inv2_init h).disp
+  refine ⟨iv.hr, iv.dsp, ?_⟩
+  intro r m hm hs hr
+  exact iv.unrel r m.mcore (by simp [dview, hm]) hs hr
 
 end Conn
